@@ -271,7 +271,8 @@ Proof.
   unfold calcfg. intros H Hc.
   destruct (s32 (le32 p REQ_OFF_COMMAND) =? CMD_ENTER_CFG_MODE) eqn:E1.
   { destruct (nthz p REQ_OFF_AUTH =? 1).
-    - apply cfgmode_start_rss in H. exfalso. apply Hc. unfold calib_all. rewrite H. reflexivity.
+    - destruct (cfgmode_start (set_exit_to s true)) as [sa oa] eqn:EA. inversion H; subst.
+      apply cfgmode_start_rss in EA. exfalso. apply Hc. unfold calib_all. rewrite EA. reflexivity.
     - inversion H; subst. congruence. }
   destruct ((s32 (le32 p REQ_OFF_COMMAND) =? CMD_RECALIBRATE) &&
             ((s32 (le32 p REQ_OFF_DATATYPE) =? DATATYPE_RS_SETTINGS) && (le32 p REQ_OFF_DATASIZE =? RSSET_SIZE) || (s32 (le32 p REQ_OFF_DATATYPE) =? 0))) eqn:E2.
@@ -673,7 +674,7 @@ Proof.
     - intros j N. apply hist_notify_other; auto.
     - intros x' G'. cbn in G'. rewrite G in G'. inversion G'; subst x'.
       rewrite hist_notify_same. assert (E : (stt =? h_phys (hist i pre)) = true) by (apply Z.eqb_eq; congruence). rewrite E. cbn [negb].
-      apply (linv_frame s); auto. unfold linv; auto. }
+      apply (linv_frame s); auto. }
   apply Z.eqb_neq in EL.
   assert (NP : stt <> h_phys (hist i pre)) by congruence.
   assert (HS : hist i (pre ++ [Notify i stt]) =
@@ -721,3 +722,450 @@ Proof.
     + intros t Ht. destruct L5 as [L5|(L5 & M1 & M2 & M3)]; subst o; [destruct Ht|]. apply CAUSE; auto.
     + intros Hf. destruct L5 as [L5|(L5 & _)]; subst o; [destruct Hf|destruct Hf as [Hf|[]]; discriminate].
 Qed.
+
+Lemma hist_tick j i pre : hist j (pre ++ [Tick i]) = hist j pre.
+Proof. rewrite hist_snoc. reflexivity. Qed.
+
+Lemma tick_inv_cause s pre i s' o :
+  Forall ev_ok pre -> inv s pre -> halted s = false -> tick s i = (s', o) ->
+  (halted s' = false -> inv s' (pre ++ [Tick i])) /\
+  (forall t, In (EnterCfg t) o -> cause_enter s pre (Tick i)) /\
+  (In Factory o -> cause_factory s pre (Tick i)) /\ booted s' = booted s.
+Proof.
+  intros Hok I Hh. pose proof I as [In Ii]. unfold tick.
+  assert (CK : clock (pre ++ [Tick i]) = clock pre) by (rewrite clock_snoc; reflexivity).
+  destruct (hist_facts i pre Hok) as (F1 & F2 & F3).
+  assert (SAME : inv s (pre ++ [Tick i])).
+  { apply (inv_step_input s s pre _ i); auto.
+    - intros j _. apply hist_tick.
+    - intros x' G'. rewrite hist_tick. auto. }
+  destruct (getn (inputs s) i) as [x|] eqn:G.
+  2:{ intros H; inversion H; subst. split; [auto|]. split; [intros t []|]. split; [intros []|reflexivity]. }
+  destruct (i_armed x) eqn:Ea.
+  2:{ intros H; inversion H; subst. split; [auto|]. split; [intros t []|]. split; [intros []|reflexivity]. }
+  destruct (Ii i x G) as (A1 & A2 & A3 & A4). destruct (A4 Ea) as (C1 & C2 & C3 & C4 & C5).
+  destruct (i_adv x) eqn:Ev.
+  - intros H. destruct (advanced_tick_spec s i x s' o A2 H) as (x' & U & L1 & L2 & L3 & L4 & L5 & L6 & L7).
+    pose proof U as [U1 (U2 & U3 & U4 & U5 & U6)].
+    split.
+    { intros _. apply (inv_step_input s s' pre _ i); auto.
+      - intros j _. apply hist_tick.
+      - intros j y N G'. apply (upd_result_other s i s' x' j y U N G').
+      - intros y G'. rewrite (upd_result_same _ _ _ _ _ _ U G G'). rewrite hist_tick. unfold linv.
+        split; [congruence|]. split; [lia|]. split; [lia|]. intros Ha'.
+        split; [congruence|]. split; [rewrite L2, U3; auto|]. split; [congruence|]. split; [intros Hv; congruence|auto]. }
+    split.
+    { intros t Ht. destruct L7 as [L7|(L7 & M1 & M2 & M3 & M4)]; subst o; [destruct Ht|].
+      left. exists i, x. repeat split; auto; try apply (held_from_linv s pre i x); auto. }
+    split; [|auto].
+    intros Hf. destruct L7 as [L7|(L7 & _)]; subst o; [destruct Hf|destruct Hf as [Hf|[]]; discriminate].
+  - intros H. destruct (legacy_tick_spec s i x s' o H) as [[E1 E2]|[(P1 & P2 & P3) [(x' & U & L1 & L2 & L3 & L4)|(Q1 & Q2 & Q3 & Q4)]]].
+    + subst. split; [auto|]. split; [intros t []|]. split; [intros []|reflexivity].
+    + pose proof U as [U1 (U2 & U3 & U4 & U5 & U6)]. split.
+      { intros _. apply (inv_step_input s s' pre _ i); auto.
+        - intros j _. apply hist_tick.
+        - intros j y N G'. apply (upd_result_other s i s' x' j y U N G').
+        - intros y G'. rewrite (upd_result_same _ _ _ _ _ _ U G G'). rewrite hist_tick. unfold linv.
+          split; [congruence|]. split; [lia|]. split; [lia|]. intros Ha'. congruence. }
+      split.
+      { intros t Ht. destruct L4 as [L4|(L4 & M1)]; subst o; [destruct Ht|].
+        left. exists i, x. repeat split; auto; try apply (held_from_linv s pre i x); auto. }
+      split; [|auto].
+      intros Hf. destruct L4 as [L4|(L4 & _)]; subst o; [destruct Hf|destruct Hf as [Hf|[]]; discriminate].
+    + split; [congruence|]. split; [intros t Ht; destruct (Q4 t Ht)|]. split.
+      * intros _. exists i, x. repeat split; auto; try apply hold_flag; auto; apply (held_from_linv s pre i x); auto.
+      * unfold legacy_tick in H.
+        repeat match type of H with context [if ?c then _ else _] => destruct c end;
+          try (inversion H; subst; reflexivity);
+          try (apply input_start_cfg_out in H; destruct H as [[? ?]|(? & ? & ? & ? & ? & ? & ? & ?)]; subst; cbn in *; congruence);
+          try (unfold factory_reset, restart in H; inversion H; subst; reflexivity).
+Qed.
+
+(* ------------------------------------------------------------------------------------------------ *)
+(* the remaining events: they never touch the input records *)
+Lemma in_send_result s a b c d x : In x (send_result s a b c d) -> x = CalRes a b c d.
+Proof. unfold send_result. destruct (is_registered s); [intros [H|[]]; auto|intros []]. Qed.
+Lemma in_cal_outs l l' x : In x (cal_outs l l') -> exists k a b c d e f g, x = Cal k a b c d e f g.
+Proof.
+  unfold cal_outs. generalize (map Z.of_nat (seq 0 (length l))). revert l'.
+  induction l as [|r l IH]; intros [|r' l'] [|k ks]; cbn; try tauto.
+  destruct (list_eqb (calib r) (calib r')); cbn; intros H.
+  - eapply IH; eauto.
+  - destruct H as [H|H]; [subst; do 8 eexists; reflexivity|eapply IH; eauto].
+Qed.
+
+Definition frame (s s' : st) : Prop :=
+  inputs s' = inputs s /\ now s' = now s /\ boot32 s' = boot32 s /\ silent s' = silent s /\ halted s' = halted s /\ booted s' = booted s.
+Lemma frame_refl s : frame s s. Proof. repeat split. Qed.
+Lemma frame_trans a b c : frame a b -> frame b c -> frame a c.
+Proof. unfold frame. intuition congruence. Qed.
+Lemma frame_pre_iter s : frame s (pre_iter s).
+Proof. destruct (pre_iter_fields s) as (A & B & C & D & E & F & G & H & I). repeat split; auto. Qed.
+
+Lemma calcfg_frame_cause s p s' o :
+  calcfg s p = (s', o) ->
+  frame s s' /\ no_factory o /\
+  (forall t, In (EnterCfg t) o -> s32 (le32 p REQ_OFF_COMMAND) = CMD_ENTER_CFG_MODE /\ nthz p REQ_OFF_AUTH = 1).
+Proof.
+  unfold calcfg. destruct (s32 (le32 p REQ_OFF_COMMAND) =? CMD_ENTER_CFG_MODE) eqn:E1.
+  - apply Z.eqb_eq in E1. destruct (nthz p REQ_OFF_AUTH =? 1) eqn:E2.
+    + apply Z.eqb_eq in E2. destruct (cfgmode_start (set_exit_to s true)) as [sa oa] eqn:EA. intros H; inversion H; subst.
+      destruct (cfgmode_start_out _ _ _ EA) as [[A B]|(A & B & C & D & E & F & G & I)]; subst.
+      * split; [repeat split|]. split; [intros X; apply in_send_result in X; discriminate|auto].
+      * split; [repeat split; cbn in *; auto|]. split; [intros [X|X]; [discriminate|apply in_send_result in X; discriminate]|auto].
+    + intros H; inversion H; subst. split; [apply frame_refl|]. split.
+      * intros X. apply in_send_result in X. discriminate.
+      * intros t X. apply in_send_result in X. discriminate.
+  - match goal with |- context [if ?c then _ else _] => destruct c end.
+    + match goal with |- context [recal_loop ?a ?b ?c ?d ?e ?f] => destruct (recal_loop a b c d e f) as [[[l' m] a'] n] end.
+      intros H; inversion H; subst. split; [repeat split|].
+      assert (X : forall x, In x (send_result s (s32 (le32 p REQ_OFF_SENDER)) (s32 (le32 p REQ_OFF_CHANNEL)) (s32 (le32 p REQ_OFF_COMMAND))
+                                    (recal_result (rss s) (s32 (le32 p REQ_OFF_CHANNEL)) (nthz p REQ_OFF_AUTH) RES_NOT_SUPPORTED) ++
+                                  cal_outs (rss s) l' ++ (if 0 <? n then [CfgFlash n n (blank s)] else [])) ->
+                      x <> Factory /\ forall t, x <> EnterCfg t).
+      { intros x Hx. apply in_app_or in Hx. destruct Hx as [Hx|Hx]; [apply in_send_result in Hx; subst; split; [|intros t]; discriminate|].
+        apply in_app_or in Hx. destruct Hx as [Hx|Hx].
+        - apply in_cal_outs in Hx. destruct Hx as (k & a & b & c & d & e & f & g & ->). split; [|intros t]; discriminate.
+        - destruct (0 <? n); [destruct Hx as [<-|[]]; split; [|intros t]; discriminate|destruct Hx]. }
+      split; [intros Hf; apply X in Hf; tauto|intros t Ht; apply X in Ht; destruct Ht as [_ Ht]; destruct (Ht t eq_refl)].
+    + intros H; inversion H; subst. split; [apply frame_refl|]. split.
+      * intros X. apply in_send_result in X. discriminate.
+      * intros t X. apply in_send_result in X. discriminate.
+Qed.
+
+Lemma set_value_frame s ch dur v s' o :
+  set_value s ch dur v = (s', o) -> frame s s' /\ no_factory o /\ no_enter o.
+Proof.
+  unfold set_value. destruct (find_rs (rss s) ch 0) as [[k r]|].
+  - intros H; inversion H; subst. split; [repeat split|].
+    split; [intros X|intros t X]; apply in_app_or in X; destruct X as [X|[X|[]]]; try discriminate;
+      apply in_cal_outs in X; destruct X as (k' & a & b & c & d & e & f & g & X); discriminate.
+  - intros H; inversion H; subst. split; [apply frame_refl|]. split; [intros []|intros t []].
+Qed.
+
+Lemma srv_frame_cause s call p s' o :
+  srv s call p = (s', o) ->
+  frame s s' /\ no_factory o /\
+  (forall t, In (EnterCfg t) o -> call = CALL_CALCFG_REQUEST /\ calcfg_gate p = true /\
+                                  s32 (le32 p REQ_OFF_COMMAND) = CMD_ENTER_CFG_MODE /\ nthz p REQ_OFF_AUTH = 1).
+Proof.
+  unfold srv. pose proof (frame_pre_iter s) as FP. set (s1 := pre_iter s) in *.
+  assert (TRIV : forall oo, (oo = [] \/ oo = [Inert true]) -> no_factory oo /\ forall t, In (EnterCfg t) oo -> False).
+  { intros oo [->| ->]; split; try (intros []; fail); try (intros t []; fail).
+    - intros [X|[]]; discriminate. - intros t [X|[]]; discriminate. }
+  destruct (negb (srpc_up s1)).
+  { intros H; inversion H; subst. split; [auto|].
+    destruct (TRIV (if (call =? CALL_CALCFG_REQUEST) && unauth_class p then [Inert true] else [])) as [T1 T2].
+    { destruct ((call =? CALL_CALCFG_REQUEST) && unauth_class p); auto. }
+    split; [auto|intros t Ht; destruct (T2 t Ht)]. }
+  destruct (call =? CALL_REGISTER_RESULT).
+  { destruct ((len p =? REGRES_SIZE) && (s32 (le32 p REGRES_OFF_CODE) =? RESULTCODE_TRUE_)); intros H; inversion H; subst;
+      (split; [apply (frame_trans _ _ _ FP); repeat split|split; [intros []|intros t []]]). }
+  destruct (call =? CALL_SET_VALUE).
+  { destruct (len p =? NV_SIZE).
+    - intros H. apply set_value_frame in H. destruct H as (A & B & C). split; [apply (frame_trans _ _ _ FP A)|]. split; [auto|intros t Ht; destruct (C t Ht)].
+    - intros H; inversion H; subst. split; [auto|]. split; [intros []|intros t []]. }
+  destruct (call =? CALL_GROUP_SET_VALUE).
+  { destruct (len p =? GNV_SIZE).
+    - intros H. apply set_value_frame in H. destruct H as (A & B & C). split; [apply (frame_trans _ _ _ FP A)|]. split; [auto|intros t Ht; destruct (C t Ht)].
+    - intros H; inversion H; subst. split; [auto|]. split; [intros []|intros t []]. }
+  destruct (call =? CALL_CALCFG_REQUEST) eqn:EC.
+  2:{ intros H; inversion H; subst. split; [auto|]. split; [intros []|intros t []]. }
+  apply Z.eqb_eq in EC. destruct (calcfg_gate p) eqn:EG.
+  2:{ intros H; inversion H; subst. split; [auto|].
+      destruct (TRIV (if unauth_class p then [Inert true] else [])) as [T1 T2]; [destruct (unauth_class p); auto|].
+      split; [auto|intros t Ht; destruct (T2 t Ht)]. }
+  destruct (calcfg s1 p) as [s2 o2] eqn:E. apply calcfg_frame_cause in E. destruct E as (A & B & C).
+  intros H; inversion H; subst. split; [apply (frame_trans _ _ _ FP A)|].
+  assert (SUB : forall x, In x (filter (fun x => match x with CfgFlash _ _ _ => false | _ => true end) o2 ++
+                               (if unauth_class p then [Inert (list_eqb (concat (calib_all s1)) (concat (calib_all s')) &&
+                                                               (entertime s1 =? entertime s') && Bool.eqb (srpc_up s1) (srpc_up s'))] else []) ++
+                               filter (fun x => match x with CfgFlash _ _ _ => true | _ => false end) o2) ->
+                      In x o2 \/ exists b, x = Inert b).
+  { intros x Hx. apply in_app_or in Hx. destruct Hx as [Hx|Hx]; [apply filter_In in Hx; tauto|].
+    apply in_app_or in Hx. destruct Hx as [Hx|Hx]; [|apply filter_In in Hx; tauto].
+    destruct (unauth_class p); [destruct Hx as [<-|[]]; right; eexists; reflexivity|destruct Hx]. }
+  split.
+  - intros Hf. apply SUB in Hf. destruct Hf as [Hf|[b Hf]]; [auto|discriminate].
+  - intros t Ht. apply SUB in Ht. destruct Ht as [Ht|[b Ht]]; [|discriminate]. destruct (C t Ht); auto.
+Qed.
+
+Lemma hist_other_events j pre e :
+  (forall i stt, e <> Notify i stt) -> (forall dt, e <> Time dt) -> hist j (pre ++ [e]) = hist j pre /\ clock (pre ++ [e]) = clock pre.
+Proof.
+  intros N T. rewrite hist_snoc, clock_snoc. destruct e; try (split; reflexivity).
+  - destruct (N i stt eq_refl). - destruct (T dt eq_refl).
+Qed.
+
+Lemma inv_frame s s' pre e :
+  inv s pre -> frame s s' -> (forall i stt, e <> Notify i stt) -> (forall dt, e <> Time dt) -> inv s' (pre ++ [e]).
+Proof.
+  intros I (A & B & C & D & E & F) N T. apply (inv_same_inputs s); auto.
+  - intros i. apply (hist_other_events i pre e N T). - apply (hist_other_events 0 pre e N T).
+Qed.
+
+(* ------------------------------------------------------------------------------------------------ *)
+(* one step of the automaton: invariant + the only causes of EnterCfg / Factory *)
+Lemma step_inv_cause (CF : consts_facts) s pre e s' o :
+  Forall ev_ok pre -> ev_ok e -> inv s pre -> live s -> step s e = (s', o) ->
+  (halted s' = false -> inv s' (pre ++ [e])) /\ booted s' = true /\
+  (forall t, In (EnterCfg t) o -> cause_enter s pre e) /\ (In Factory o -> cause_factory s pre e).
+Proof.
+  intros Hok He I [Lb Lh]. unfold step.
+  assert (NOOUT : (s, []) = (s', o) -> (forall i stt, e <> Notify i stt) -> (forall dt, e <> Time dt) ->
+            (halted s' = false -> inv s' (pre ++ [e])) /\ booted s' = true /\
+            (forall t, In (EnterCfg t) o -> cause_enter s pre e) /\ (In Factory o -> cause_factory s pre e)).
+  { intros H N T; inversion H; subst. split; [intros _; apply (inv_frame s' s'); auto; apply frame_refl|].
+    split; [auto|]. split; [intros t []|intros []]. }
+  destruct e; rewrite ?Lb, ?Lh; cbn [negb orb].
+  - (* Boot while running: ignored *) intros H. apply NOOUT; auto; intros; discriminate.
+  - (* ConnCb *) intros H; inversion H; subst. split.
+    + intros _. apply (inv_frame s); auto; try (intros; discriminate). destruct (connectable s); repeat split.
+    + split; [destruct (connectable s); auto|]. split; [intros t []|intros []].
+  - (* Iter *) intros H; inversion H; subst. split.
+    + intros _. apply (inv_frame s); auto; try (intros; discriminate). apply frame_pre_iter.
+    + destruct (frame_pre_iter s) as (_ & _ & _ & _ & _ & B). split; [congruence|]. split; [intros t []|intros []].
+  - (* Srv *) intros H. destruct (srv_frame_cause _ _ _ _ _ H) as (F & NF & C). split.
+    + intros _. apply (inv_frame s); auto; intros; discriminate.
+    + destruct F as (_ & _ & _ & _ & _ & B). split; [congruence|]. split.
+      * intros t Ht. destruct (C t Ht) as (C1 & C2 & C3 & C4). subst call. right; right. exists payload. auto.
+      * intros Hf. destruct (NF Hf).
+  - (* Notify *) intros H. destruct (notify_inv_cause CF s pre i stt s' o Hok I Lh H) as (A & B & C & D).
+    split; [auto|]. split; [congruence|]. split; [auto|]. intros Hf. destruct (C Hf).
+  - (* Tick *) intros H. destruct (tick_inv_cause s pre i s' o Hok I Lh H) as (A & B & C & D).
+    split; [auto|]. split; [congruence|]. auto.
+  - (* Time *) intros H; inversion H; subst. split.
+    + intros _. destruct I as [In Ii]. split.
+      * cbn. rewrite clock_snoc. lia.
+      * intros i x G. cbn in G. rewrite hist_snoc. cbn [hstep]. specialize (Ii i x G).
+        destruct Ii as (A1 & A2 & A3 & A4). unfold linv. cbn [h_phys h_n h_t h_st]. auto.
+    + split; [auto|]. split; [intros t []|intros []].
+  - (* ApTimer *) unfold ap_timer. destruct (cfgtmr s =? 1).
+    + destruct (exit_to s); intros H; inversion H; subst; (split; [intros _; apply (inv_frame s); auto; try (intros; discriminate); repeat split|]);
+        (split; [auto|]); (split; [intros t [X|[X|[]]]; discriminate|intros [X|[X|[]]]; discriminate]).
+    + destruct (cfgtmr s =? 2).
+      * intros H. unfold restart in H. inversion H; subst. split; [intros X; cbn in X; discriminate|].
+        split; [cbn; auto|]. split; [intros t [X|[]]; discriminate|intros [X|[]]; discriminate].
+      * intros H. apply NOOUT; auto; intros; discriminate.
+  - (* RsEnv *) intros H; inversion H; subst. split.
+    + intros _. apply (inv_frame s); auto; try (intros; discriminate). unfold rs_env. destruct (getn (rss s) idx); repeat split.
+    + split; [unfold rs_env; destruct (getn (rss s) idx); auto|]. split; [intros t []|intros []].
+Qed.
+
+(* ------------------------------------------------------------------------------------------------ *)
+(* whole runs *)
+Lemma run_from_dead s evs : (forall e, In e evs -> forall a b c d f, e <> Boot a b c d f) \/ booted s = true ->
+  booted s = false \/ halted s = true -> run_from s evs = (s, []).
+Proof.
+  revert s; induction evs as [|e r IH]; intros s NB D; [reflexivity|].
+  cbn [run_from]. assert (E : step s e = (s, [])).
+  { unfold step. destruct e; try (destruct D as [D|D]; rewrite D; cbn; rewrite ?orb_true_r; reflexivity).
+    destruct NB as [NB|NB]; [exfalso; apply (NB _ (or_introl eq_refl) b32 blnk flashcfg ins rs eq_refl)|]. rewrite NB. reflexivity. }
+  rewrite E. rewrite IH; auto. destruct NB as [NB|NB]; [left; intros e' He'; apply NB; right; auto|right; auto].
+Qed.
+
+Lemma run_from_app s a b :
+  run_from s (a ++ b) = let '(s1, o1) := run_from s a in let '(s2, o2) := run_from s1 b in (s2, o1 ++ o2).
+Proof.
+  revert s; induction a as [|e r IH]; intros s; cbn [app run_from].
+  - destruct (run_from s b); reflexivity.
+  - destruct (step s e) as [s1 o1]. rewrite IH. destruct (run_from s1 r) as [s2 o2]. destruct (run_from s2 b) as [s3 o3].
+    rewrite app_assoc. reflexivity.
+Qed.
+
+Lemma run_inv_cause (CF : consts_facts) : forall evs s pre,
+  Forall ev_ok pre -> Forall ev_ok evs -> inv s pre -> live s ->
+  (forall t, In (EnterCfg t) (snd (run_from s evs)) ->
+     exists p1 e p2, evs = p1 ++ e :: p2 /\ cause_enter (fst (run_from s p1)) (pre ++ p1) e) /\
+  (In Factory (snd (run_from s evs)) ->
+     exists p1 e p2, evs = p1 ++ e :: p2 /\ cause_factory (fst (run_from s p1)) (pre ++ p1) e).
+Proof.
+  induction evs as [|e r IH]; intros s pre Hp He I L.
+  - cbn. split; [intros t []|intros []].
+  - inversion He; subst. cbn [run_from]. destruct (step s e) as [s1 o1] eqn:E.
+    destruct (step_inv_cause CF s pre e s1 o1 Hp H1 I L E) as (A & B & C & D).
+    destruct (run_from s1 r) as [s2 o2] eqn:R. cbn [snd].
+    assert (REST : halted s1 = false ->
+              (forall t, In (EnterCfg t) o2 -> exists p1 e' p2, r = p1 ++ e' :: p2 /\ cause_enter (fst (run_from s1 p1)) ((pre ++ [e]) ++ p1) e') /\
+              (In Factory o2 -> exists p1 e' p2, r = p1 ++ e' :: p2 /\ cause_factory (fst (run_from s1 p1)) ((pre ++ [e]) ++ p1) e')).
+    { intros Hh. specialize (IH s1 (pre ++ [e])). rewrite R in IH. apply IH; auto.
+      - apply Forall_app; split; auto. - split; auto. }
+    assert (DEAD : halted s1 = true -> o2 = []).
+    { intros Hh. rewrite run_from_dead in R; auto. inversion R; auto. }
+    assert (LIFT : forall (P : st -> list ev -> ev -> Prop),
+              (exists p1 e' p2, r = p1 ++ e' :: p2 /\ P (fst (run_from s1 p1)) ((pre ++ [e]) ++ p1) e') ->
+              exists p1 e' p2, e :: r = p1 ++ e' :: p2 /\ P (fst (run_from s (p1))) (pre ++ p1) e').
+    { intros P (p1 & e' & p2 & Q1 & Q2). exists (e :: p1), e', p2. split; [rewrite Q1; reflexivity|].
+      cbn [run_from]. rewrite E. destruct (run_from s1 p1) as [sx ox] eqn:RX. cbn [fst] in *.
+      rewrite <- app_assoc in Q2. exact Q2. }
+    split.
+    + intros t Ht. apply in_app_or in Ht. destruct Ht as [Ht|Ht].
+      * exists [], e, r. split; [reflexivity|]. cbn. rewrite app_nil_r. apply (C t Ht).
+      * destruct (halted s1) eqn:Hh; [rewrite (DEAD eq_refl) in Ht; destruct Ht|].
+        apply (LIFT cause_enter). apply (proj1 (REST eq_refl) t Ht).
+    + intros Hf. apply in_app_or in Hf. destruct Hf as [Hf|Hf].
+      * exists [], e, r. split; [reflexivity|]. cbn. rewrite app_nil_r. apply (D Hf).
+      * destruct (halted s1) eqn:Hh; [rewrite (DEAD eq_refl) in Hf; destruct Hf|].
+        apply (LIFT cause_factory). apply (proj2 (REST eq_refl) Hf).
+Qed.
+
+(* boot *)
+Lemma sat_fields x m :
+  i_last (set_active_triggers x m) = i_last x /\ (i_cnt x = 0 -> i_cnt (set_active_triggers x m) = 0) /\
+  (i_armed x = false -> i_armed (set_active_triggers x m) = false).
+Proof.
+  unfold set_active_triggers.
+  match goal with |- context [let '(a, b) := ?T in _] => destruct T as [rel drel] end.
+  cbn [i_last i_cnt i_armed]. repeat split; auto; intros H; rewrite H; match goal with |- (if ?c then _ else _) = _ => destruct c end; reflexivity.
+Qed.
+
+Lemma getn_map {A B} (f : A -> B) l i y : getn (map f l) i = Some y -> exists x, getn l i = Some x /\ y = f x.
+Proof.
+  unfold getn. destruct (i <? 0); [discriminate|]. rewrite nth_error_map. destruct (nth_error l (Z.to_nat i)); cbn; intros H; inversion H; eauto.
+Qed.
+
+Lemma boot_inv b32 bl fc ins rs s0 o0 :
+  boot b32 bl fc ins rs = (s0, o0) ->
+  inv s0 [] /\ live s0 /\
+  (forall t, In (EnterCfg t) o0 -> incomplete (if fc =? 0 then 15 else bl) = true) /\
+  (In Factory o0 -> fc = 0).
+Proof.
+  unfold boot. set (b := if fc =? 0 then 15 else bl).
+  match goal with |- context [if incomplete b then let '(s1, o) := cfgmode_start ?S in _ else _] => set (sb := S) end.
+  assert (IB : inv sb [] /\ live sb).
+  { split; [|split; reflexivity]. split; [reflexivity|]. intros i y G. cbn [inputs sb] in G. apply getn_map in G. destruct G as (x & _ & ->).
+    unfold linv, hist. cbn [fold_left h0 h_phys h_n].
+    destruct (i_at x <? 0).
+    - cbn. repeat split; auto; try lia; discriminate.
+    - match goal with |- context [set_active_triggers ?X ?M] => destruct (sat_fields X M) as (S1 & S2 & S3); rewrite S1, (S2 eq_refl), (S3 eq_refl) end.
+      cbn. repeat split; auto; try lia; discriminate. }
+  destruct IB as [IB LB].
+  assert (O0 : forall x, In x (if fc =? 0 then [Factory] else []) -> x = Factory /\ fc = 0).
+  { intros x. destruct (fc =? 0) eqn:E; [intros [<-|[]]; split; auto; apply Z.eqb_eq; auto|intros []]. }
+  assert (O9 : forall x, In x (if fc =? 0 then [CfgFlash 1 1 15] else []) -> x = CfgFlash 1 1 15).
+  { intros x. destruct (fc =? 0); [intros [<-|[]]; auto|intros []]. }
+  destruct (incomplete b) eqn:EI.
+  - destruct (cfgmode_start sb) as [s1 o] eqn:EC. intros H; inversion H; subst.
+    destruct (cfgmode_start_out _ _ _ EC) as [[A B]|(A & B & C & D & E & F & G & I)]; subst.
+    + split; [auto|]. split; [auto|]. split; [auto|]. intros Hf. apply in_app_or in Hf. destruct Hf as [Hf|Hf]; [apply O0 in Hf; tauto|].
+      cbn in Hf. apply O9 in Hf. discriminate.
+    + split.
+      { destruct IB as [In Ii]. split; [rewrite D; exact In|]. intros i x Gx. rewrite C in Gx. apply (linv_frame sb); auto. }
+      split; [destruct LB; split; congruence|]. split; [auto|].
+      intros Hf. apply in_app_or in Hf. destruct Hf as [Hf|Hf]; [apply O0 in Hf; tauto|].
+      apply in_app_or in Hf. destruct Hf as [[Hf|[]]|Hf]; [discriminate|apply O9 in Hf; discriminate].
+  - intros H; inversion H; subst. split; [auto|]. split; [auto|]. split.
+    + intros t Ht. apply in_app_or in Ht. destruct Ht as [Ht|Ht]; [apply O0 in Ht; destruct Ht; discriminate|apply O9 in Ht; discriminate].
+    + intros Hf. apply in_app_or in Hf. destruct Hf as [Hf|Hf]; [apply O0 in Hf; tauto|apply O9 in Hf; discriminate].
+Qed.
+
+(* ------------------------------------------------------------------------------------------------ *)
+(* the property theorems *)
+Lemma run_boot b32 bl fc ins rs evs :
+  run_from init (Boot b32 bl fc ins rs :: evs) =
+    let '(s0, o0) := boot b32 bl fc ins rs in let '(s2, o2) := run_from s0 evs in (s2, o0 ++ o2).
+Proof. reflexivity. Qed.
+
+Lemma only_these_enter_cfgmode_thm : code_shape -> forall b32 bl fc ins rs evs t,
+  Forall ev_ok evs ->
+  In (EnterCfg t) (run (Boot b32 bl fc ins rs :: evs)) ->
+  incomplete (if fc =? 0 then 15 else bl) = true \/
+  exists pre e post, evs = pre ++ e :: post /\
+    cause_enter (fst (run_from init (Boot b32 bl fc ins rs :: pre))) pre e.
+Proof.
+  intros _ b32 bl fc ins rs evs t Hok. unfold run. rewrite run_boot.
+  destruct (boot b32 bl fc ins rs) as [s0 o0] eqn:EB. destruct (boot_inv _ _ _ _ _ _ _ EB) as (I0 & L0 & C0 & F0).
+  destruct (run_from s0 evs) as [s2 o2] eqn:ER. cbn [snd]. intros H. apply in_app_or in H. destruct H as [H|H].
+  - left. apply (C0 t H).
+  - right. destruct (run_inv_cause consts_ok evs s0 [] (Forall_nil _) Hok I0 L0) as [A _]. rewrite ER in A.
+    destruct (A t H) as (p1 & e & p2 & Q1 & Q2). exists p1, e, p2. split; [auto|].
+    rewrite run_boot, EB. destruct (run_from s0 p1) as [sx ox]. exact Q2.
+Qed.
+
+Lemma factory_reset_only_in_cfgmode_thm : code_shape -> forall b32 bl fc ins rs evs,
+  Forall ev_ok evs ->
+  In Factory (run (Boot b32 bl fc ins rs :: evs)) ->
+  fc = 0 \/
+  exists pre e post, evs = pre ++ e :: post /\
+    cause_factory (fst (run_from init (Boot b32 bl fc ins rs :: pre))) pre e.
+Proof.
+  intros _ b32 bl fc ins rs evs Hok. unfold run. rewrite run_boot.
+  destruct (boot b32 bl fc ins rs) as [s0 o0] eqn:EB. destruct (boot_inv _ _ _ _ _ _ _ EB) as (I0 & L0 & C0 & F0).
+  destruct (run_from s0 evs) as [s2 o2] eqn:ER. cbn [snd]. intros H. apply in_app_or in H. destruct H as [H|H].
+  - left. apply (F0 H).
+  - right. destruct (run_inv_cause consts_ok evs s0 [] (Forall_nil _) Hok I0 L0) as [_ A]. rewrite ER in A.
+    destruct (A H) as (p1 & e & p2 & Q1 & Q2). exists p1, e, p2. split; [auto|].
+    rewrite run_boot, EB. destruct (run_from s0 p1) as [sx ox]. exact Q2.
+Qed.
+
+(* events in front of the first boot do nothing *)
+Lemma preboot_ignored pre evs :
+  (forall e, In e pre -> forall a b c d f, e <> Boot a b c d f) -> run (pre ++ evs) = run evs.
+Proof.
+  intros H. unfold run. rewrite run_from_app. rewrite (run_from_dead init pre); [|left; auto|left; reflexivity].
+  destruct (run_from init evs); reflexivity.
+Qed.
+
+Lemma no_other_message_touches_calibration_except_known_thm : code_shape -> forall s call p,
+  live s -> ~ known_class s call p ->
+  calib_all (fst (step s (Srv call p))) <> calib_all s ->
+  call = CALL_CALCFG_REQUEST /\ calcfg_gate p = true /\ s32 (le32 p REQ_OFF_COMMAND) = CMD_RECALIBRATE /\ nthz p REQ_OFF_AUTH <> 0 /\
+  existsb (rmatch (s32 (le32 p REQ_OFF_CHANNEL))) (rss (pre_iter s)) = true.
+Proof.
+  intros _ s call p L NK H. destruct (srv_touches_calibration_thm s call p L H) as [A|A]; [auto|contradiction].
+Qed.
+
+(* ------------------------------------------------------------------------------------------------ *)
+(* witnesses (computed) *)
+Definition w_in (ty fl : Z) : input := in_of_ints [ty; fl; 255; 0; -1].
+Definition w_rs : shutter := rs_of_ints [1; 0; 0; CHFLAG_RECALIBRATE; 0; 4; 5; 10000; 12000].
+Definition w_boot (ty fl : Z) : ev := Boot 1 0 1 [w_in ty fl] [w_rs].
+Definition w_regok : ev := Srv CALL_REGISTER_RESULT (enc32 RESULTCODE_TRUE_ ++ [30; 23; 1]).
+Definition w_pro (ty fl : Z) : list ev := [w_boot ty fl; ConnCb; Iter; w_regok].
+(* TSD_SuplaChannelNewValue: SenderID, ChannelNumber 0, DurationMS = 130 | 100 << 16 (closing 13.0 s, opening 10.0 s), value 0 *)
+Definition w_setvalue : ev := Srv CALL_SET_VALUE ([5;0;0;0] ++ [0] ++ [130;0;100;0] ++ zeros 8).
+(* TSD_DeviceCalCfgRequest header: SenderID 7, ChannelNumber 0, Command, SuperUserAuthorized, DataType 0, DataSize 0 *)
+Definition w_calcfg (cmd auth : Z) : ev := Srv CALL_CALCFG_REQUEST (enc32 7 ++ enc32 0 ++ enc32 cmd ++ [auth] ++ enc32 0 ++ enc32 0).
+
+(* the literal clause "no other server message alters calibration" is false of the faithful model:
+   a plain set-value for the shutter channel rewrites the closing time and resets the position *)
+Lemma no_other_message_touches_calibration_refuted_thm :
+  run (w_pro TYPE_MONOSTABLE FLAG_CFG_BTN ++ [w_setvalue]) = [Cal 0 10000 13000 0 0 0 0 0; CfgFlash 1 1 0] /\
+  CALL_SET_VALUE <> CALL_CALCFG_REQUEST.
+Proof. split; [vm_compute; reflexivity|vm_compute; congruence]. Qed.
+
+(* ten toggles, each 2^32 us (71.6 min) after the previous one, are chained by the 32-bit time arithmetic *)
+Definition w_wrap_toggles : list ev :=
+  [Time 500000] ++ concat (map (fun k => [Notify 0 (Z.of_nat (S k) mod 2); Time 4294967296]) (seq 0 10)).
+Lemma toggle_chain_u32_wrap_refuted_thm :
+  filter (fun o => match o with EnterCfg _ => true | _ => false end) (run (w_boot TYPE_BISTABLE FLAG_CFG_BTN :: w_wrap_toggles))
+  = [EnterCfg (500000 + 9 * 4294967296)].
+Proof. vm_compute. reflexivity. Qed.
+(* ... while ten toggles 40 minutes apart are not *)
+Definition w_40min_toggles : list ev :=
+  [Time 500000] ++ concat (map (fun k => [Notify 0 (Z.of_nat (S k) mod 2); Time 2400000000]) (seq 0 12)).
+Lemma toggles_40min_apart_do_not_enter_thm :
+  run (w_boot TYPE_BISTABLE FLAG_CFG_BTN :: w_40min_toggles) = [].
+Proof. vm_compute. reflexivity. Qed.
+
+(* non-vacuity: every legitimate cause does occur, and the factory reset path exists *)
+Definition w_ticks (n : nat) : list ev := concat (repeat [Time 20000; Tick 0] n).
+Lemma nonvacuous_thm :
+  (* (a) hold for 5 s *)
+  run (w_boot TYPE_MONOSTABLE FLAG_CFG_BTN :: [Time 500000; Notify 0 1] ++ w_ticks 250) = [EnterCfg 5500000] /\
+  run (w_boot TYPE_MONOSTABLE FLAG_CFG_BTN :: [Time 500000; Notify 0 1] ++ w_ticks 249) = [] /\
+  (* (b) ten quick toggles *)
+  run (w_boot TYPE_BISTABLE FLAG_CFG_BTN :: [Time 500000] ++ concat (map (fun k => [Notify 0 (Z.of_nat (S k) mod 2); Time 300000]) (seq 0 10)))
+    = [EnterCfg (500000 + 9 * 300000)] /\
+  (* (c) authorised request; unauthorised ones *)
+  run (w_pro TYPE_MONOSTABLE FLAG_CFG_BTN ++ [w_calcfg CMD_ENTER_CFG_MODE 1]) = [EnterCfg 0; CalRes 7 0 CMD_ENTER_CFG_MODE RES_DONE] /\
+  run (w_pro TYPE_MONOSTABLE FLAG_CFG_BTN ++ [w_calcfg CMD_ENTER_CFG_MODE 0]) = [CalRes 7 0 CMD_ENTER_CFG_MODE RES_UNAUTHORIZED; Inert true] /\
+  run (w_pro TYPE_MONOSTABLE FLAG_CFG_BTN ++ [w_calcfg CMD_RECALIBRATE 0]) = [CalRes 7 0 CMD_RECALIBRATE RES_UNAUTHORIZED; Inert true] /\
+  run (w_pro TYPE_MONOSTABLE FLAG_CFG_BTN ++ [RsEnv 0 10000 12000 0 0 5100 0 0 0; w_calcfg CMD_RECALIBRATE 1]) =
+      [CalRes 7 0 CMD_RECALIBRATE RES_DONE; Cal 0 10000 12000 0 0 0 0 0] /\
+  (* (d) boot with an incomplete configuration *)
+  run [Boot 1 2 1 [w_in TYPE_MONOSTABLE FLAG_CFG_BTN] []] = [EnterCfg 0] /\
+  (* factory reset: hold again while in configuration mode *)
+  run (w_boot TYPE_MONOSTABLE (FLAG_CFG_BTN + FLAG_FACTORY_RESET) :: [Time 500000; Notify 0 1] ++ w_ticks 250 ++ [Notify 0 0; Time 100000; Notify 0 1] ++ w_ticks 250)
+    = [EnterCfg 5500000; Factory; CfgFlash 1 1 15; Restart (5500000 + 100000 + 5000000 + 500000)].
+Proof. vm_compute. repeat split; reflexivity. Qed.
